@@ -60,16 +60,21 @@ class Lc:
         self.sympy = sympy
         self.state = state
 
-    def analyse(self, case, spoint, solver='DM', convention='passive'):
+    def analyse(self, case, spoint, solver='DM', convention='passive', subkey=None):
         """returns dict(V={node: (re,im)}, J={branch: ...}, I={cpt: ...}, key=...) or raises"""
         S = self.sympy
         self.state.current_sign_convention = convention
         cct = self.lcapy.Circuit('\n'.join(case['lcapy']))
         cct.solver_method = solver
         keys = list(cct.sub.keys())
-        if len(keys) != 1:
-            raise ValueError('expected one sub-netlist, got %s' % keys)
-        key = keys[0]
+        if subkey is not None:
+            key = subkey(keys)
+            if key is None:
+                raise KeyError('no sub-netlist for the requested kind among %s' % keys)
+        else:
+            if len(keys) != 1:
+                raise ValueError('expected one sub-netlist, got %s' % keys)
+            key = keys[0]
         sub = cct.sub[key]
         mna = sub.mna
         # `cct.solver_method` does not reach the sub-netlists (`expand()` builds them from a new Netlist with the
@@ -337,6 +342,92 @@ def run(chk, replay=None):
                 spoint = Fraction(rng.randint(1, 12), rng.randint(1, 5))
             one(case, spoint, idx)
             idx += 1
+
+    # ---- sources given as arbitrary time-domain expressions (sums of a constant and sinusoids, several of them at the
+    # same frequency): the source's defining relation in each kind is the Lean decomposition model's value (dc sum,
+    # per-frequency phasor ACCUMULATION), and Lcapy's solution of every sub-netlist must satisfy `Laws` with it
+    def tone(idx):
+        nonlocal n_cex
+        S = L.sympy
+        R = lambda q: S.Rational(q.numerator, q.denominator)   # noqa
+        tt = S.Symbol('t', real=True)
+        nterms = rng.randint(2, 4)
+        freqs = rng.sample([Fraction(2), Fraction(3), Fraction(1, 2), Fraction(5, 3)], 2)
+        terms, pieces = [], []
+        for i in range(nterms):
+            kd = rng.choice(['cos', 'sin', 'cos', 'sin', 'dc'])
+            c = Fraction(rng.randint(1, 9), rng.randint(1, 3)) * rng.choice([1, -1])
+            w = freqs[0] if i < 2 else rng.choice(freqs)       # the first two sinusoids share a frequency
+            if kd == 'dc':
+                terms.append('dc:%s' % fstr(c)); pieces.append(R(c))
+            elif kd == 'cos':
+                terms.append('ac:%s:%s:0' % (fstr(w), fstr(c))); pieces.append(R(c) * S.cos(R(w) * tt))
+            else:
+                terms.append('ac:%s:0:%s' % (fstr(w), fstr(c))); pieces.append(R(c) * S.sin(R(w) * tt))
+        expr = sum(pieces)
+        md = dict(p_.split('=', 1) for p_ in drv.ask1('dec.run ' + ' '.join(terms)).split())
+        want = {}
+        if Fraction(md['dc']) != 0:
+            want['dc'] = fstr(Fraction(md['dc']))
+        for it in [x for x in md['ac'].split(',') if x]:
+            w, a_, b_ = it.split(':')
+            if (Fraction(a_), Fraction(b_)) != (0, 0):
+                want[Fraction(w)] = fstr(Fraction(a_)) + ((',' + fstr(-Fraction(b_))) if Fraction(b_) != 0 else '')
+        src = rng.choice(['V', 'I'])
+        react = rng.choice(['C', 'L'])
+        r1, r2, x1 = (gen_netlist.fs(gen_netlist.rv(rng)) for _ in range(3))
+        rest = ['R1 1 2 %s' % r1, '%s1 2 0 %s' % (react, x1), 'R2 2 3 %s' % r2, '%s2 3 0 %s' % (rng.choice(['C', 'L', 'R']) + '', gen_netlist.fs(gen_netlist.rv(rng)))]
+        rest[3] = rest[3].replace('R2 3 0', 'R3 3 0')
+        lcapy_lines = ['%s1 1 0 {%s}' % (src, S.sstr(expr))] + rest
+        chk.count('tone', 'terms=%d kinds=%d' % (nterms, len(want)))
+        seen = set()
+        for kind_, v in sorted(want.items(), key=lambda kv: str(kv[0])):
+            if kind_ == 'dc':
+                an, srcline = 'dc', '%s1 1 0 dc %s' % (src, v)
+                pick = lambda keys: ('dc' if 'dc' in keys else None)   # noqa
+            else:
+                an, srcline = 'ac %s' % fstr(kind_), '%s1 1 0 ac %s' % (src, v)
+                pick = lambda keys, w_=kind_: next((k_ for k_ in keys if not isinstance(k_, str) and S.simplify(S.sympify(k_) - R(w_)) == 0), None)   # noqa
+            case = {'analysis': 'dc' if kind_ == 'dc' else 'ac', 'lines': [srcline] + rest, 'lcapy': lcapy_lines, 'subs': {},
+                    'omega': kind_ if kind_ != 'dc' else Fraction(1)}
+            jcase = {'analysis': case['analysis'], 'lines': case['lines'], 'lcapy': lcapy_lines, 'subs': {}, 'omega': fstr(case['omega']),
+                     'source_expression': S.sstr(expr), 'kind': str(kind_)}
+            chk.case((tuple(lcapy_lines), an), True)
+            try:
+                with common.time_limit(60):
+                    got = L.analyse(case, None, 'DM', 'passive', subkey=pick)
+            except KeyError:
+                n_cex += 1
+                chk.counterexample({'kind': 'source-law', 'clause': 'kind-missing', 'analysis': case['analysis']},
+                                   {'input': {'tone': jcase}, 'lcapy': 'no sub-netlist for %s' % an,
+                                    'spec': 'the source expression has the component %s in this kind' % v},
+                                   'the %s component of the source expression is not analysed' % an)
+                continue
+            except common.TimeLimit:
+                chk.count('lcapy-error', 'tone:time-limit')
+                continue
+            except Exception as e:   # noqa
+                chk.count('lcapy-error', 'tone:' + type(e).__name__ + ':' + str(e)[:40])
+                continue
+            seen.add(kind_)
+            body = ' || '.join(case['lines'])
+            vs = ' '.join('%s=%s' % (n, fstr(v_[0]) + (',' + fstr(v_[1]) if v_[1] != 0 else '')) for n, v_ in got['V'].items())
+            js = ' '.join('%s=%s' % (n, fstr(v_[0]) + (',' + fstr(v_[1]) if v_[1] != 0 else '')) for n, v_ in got['J'].items())
+            verdict = drv.ask1('mna.laws %s || %s || V %s J %s' % (an, body, vs, js))
+            if verdict.startswith('error'):
+                chk.count('oracle', 'tone-front-end:' + verdict[:40])
+            elif verdict != 'ok':
+                n_cex += 1
+                chk.counterexample({'kind': 'source-law', 'clause': verdict.split()[0], 'analysis': case['analysis']},
+                                   {'input': {'tone': jcase}, 'lcapy': {'V': vs, 'J': js}, 'spec': verdict,
+                                    'note': 'source value in this kind by the decomposition model: %s' % v},
+                                   'Lcapy solution of the %s part of a multi-term source violates %s' % (an, verdict))
+            else:
+                chk.count('oracle', 'tone-laws-ok')
+
+    if not replay:
+        for k in range(8 if quick else 80):
+            tone(k)
 
     chk.coverage['correspondence']['samples_of_disagreement'] = disagreements[:5]
     if broken and n_cex == 0:
